@@ -71,8 +71,26 @@ pub trait Item:
     + std::ops::Add<Self, Output = Self>
     + for<'a> std::ops::Add<&'a Self, Output = Self>
     + std::ops::Mul<Self, Output = Self>
+    + std::ops::Sub<Self, Output = Self>
+    + std::ops::Div<Self, Output = Self>
+    + std::ops::Rem<Self, Output = Self>
+    + std::ops::BitAnd<Self, Output = Self>
+    + std::ops::BitOr<Self, Output = Self>
+    + std::ops::BitXor<Self, Output = Self>
+    + std::ops::Shl<Self, Output = Self>
+    + std::ops::Shr<Self, Output = Self>
     + std::ops::AddAssign<Self>
+    + std::ops::SubAssign<Self>
+    + std::ops::MulAssign<Self>
+    + std::ops::DivAssign<Self>
+    + std::ops::RemAssign<Self>
+    + std::ops::BitAndAssign<Self>
+    + std::ops::BitOrAssign<Self>
+    + std::ops::BitXorAssign<Self>
+    + std::ops::ShlAssign<Self>
+    + std::ops::ShrAssign<Self>
     + std::ops::Neg<Output = Self>
+    + std::ops::Not<Output = Self>
     + vek::num_traits::MulAdd<Self, Self, Output = Self>
     + vek::num_traits::Zero
     + vek::num_traits::One
@@ -242,12 +260,6 @@ impl Clone for Wide {
     }
 }
 // arithmetic (operation `VArith`): delegate to the tracked payload, keep this element's own shell
-impl std::ops::Add<Wide> for Wide {
-    type Output = Wide;
-    fn add(self, rhs: Wide) -> Wide {
-        Wide::wrap(self.inner + rhs.inner)
-    }
-}
 impl<'a> std::ops::Add<&'a Wide> for Wide {
     type Output = Wide;
     fn add(self, rhs: &'a Wide) -> Wide {
@@ -266,15 +278,31 @@ impl<'a, 'b> std::ops::Add<&'b Wide> for &'a Wide {
         Wide::wrap(&self.inner + &rhs.inner)
     }
 }
-impl std::ops::Mul<Wide> for Wide {
-    type Output = Wide;
-    fn mul(self, rhs: Wide) -> Wide {
-        Wide::wrap(self.inner * rhs.inner)
-    }
+macro_rules! wide_binop {
+    ($($Tr:ident $m:ident),+) => {$(
+        impl std::ops::$Tr<Wide> for Wide {
+            type Output = Wide;
+            fn $m(self, rhs: Wide) -> Wide {
+                Wide::wrap(std::ops::$Tr::$m(self.inner, rhs.inner))
+            }
+        }
+    )+};
 }
-impl std::ops::AddAssign<Wide> for Wide {
-    fn add_assign(&mut self, rhs: Wide) {
-        self.inner += rhs.inner;
+macro_rules! wide_assign {
+    ($($Tr:ident $m:ident),+) => {$(
+        impl std::ops::$Tr<Wide> for Wide {
+            fn $m(&mut self, rhs: Wide) {
+                std::ops::$Tr::$m(&mut self.inner, rhs.inner);
+            }
+        }
+    )+};
+}
+wide_binop!(Add add, Sub sub, Mul mul, Div div, Rem rem, BitAnd bitand, BitOr bitor, BitXor bitxor, Shl shl, Shr shr);
+wide_assign!(AddAssign add_assign, SubAssign sub_assign, MulAssign mul_assign, DivAssign div_assign, RemAssign rem_assign, BitAndAssign bitand_assign, BitOrAssign bitor_assign, BitXorAssign bitxor_assign, ShlAssign shl_assign, ShrAssign shr_assign);
+impl std::ops::Not for Wide {
+    type Output = Wide;
+    fn not(self) -> Wide {
+        Wide::wrap(!self.inner)
     }
 }
 impl std::ops::Neg for Wide {
@@ -464,6 +492,12 @@ pub trait Kind<X: Item>: 'static {
     fn v_reduce<F: FnMut(X, X) -> X>(v: Self::V, f: F) -> X;
     // element-wise arithmetic with an element type that is not Copy (operation `VArith`)
     fn v_add(a: Self::V, b: Self::V) -> Self::V;
+    /// one of the ten binary operators of the shared macro, by value: + - * / % & | ^ << >>
+    fn v_binop(a: Self::V, b: Self::V, which: u32) -> Self::V;
+    /// the compound-assignment form of the same ten
+    fn v_assign(a: &mut Self::V, b: Self::V, which: u32);
+    /// - or !
+    fn v_unop(a: Self::V, which: u32) -> Self::V;
     fn v_add_arr(a: Self::V, b: Self::Arr) -> Self::V;
     fn v_mul_tup(a: Self::V, b: Self::Tup) -> Self::V;
     fn v_add_ref(a: Self::V, b: &Self::V) -> Self::V;
@@ -590,6 +624,13 @@ macro_rules! kind {
             fn v_map3<F: FnMut(X, X, X) -> X>(a: Self::V, b: Self::V, c: Self::V, f: F) -> Self::V { a.map3(b, c, f) }
             fn v_reduce<F: FnMut(X, X) -> X>(v: Self::V, f: F) -> X { v.reduce(f) }
             fn v_add(a: Self::V, b: Self::V) -> Self::V { a + b }
+            fn v_binop(a: Self::V, b: Self::V, which: u32) -> Self::V {
+                match which % 10 { 0 => a + b, 1 => a - b, 2 => a * b, 3 => a / b, 4 => a % b, 5 => a & b, 6 => a | b, 7 => a ^ b, 8 => a << b, _ => a >> b }
+            }
+            fn v_assign(a: &mut Self::V, b: Self::V, which: u32) {
+                match which % 10 { 0 => *a += b, 1 => *a -= b, 2 => *a *= b, 3 => *a /= b, 4 => *a %= b, 5 => *a &= b, 6 => *a |= b, 7 => *a ^= b, 8 => *a <<= b, _ => *a >>= b }
+            }
+            fn v_unop(a: Self::V, which: u32) -> Self::V { if which % 2 == 0 { -a } else { !a } }
             fn v_add_arr(a: Self::V, b: Self::Arr) -> Self::V { a + b }
             fn v_mul_tup(a: Self::V, b: Self::Tup) -> Self::V { a * b }
             fn v_add_ref(a: Self::V, b: &Self::V) -> Self::V { a + b }
